@@ -297,6 +297,7 @@ func c10R3(c *Ctx, rule string) {
 		return
 	}
 	bad := ""
+	low := false
 	n := 0
 	var rec func(i int, env map[ssa.Value]int64)
 	rec = func(i int, env map[ssa.Value]int64) {
@@ -310,6 +311,11 @@ func c10R3(c *Ctx, rule string) {
 				n++
 				if err != nil {
 					bad = "cannot fold " + c.P.D(init) + ": " + err.Error()
+					return
+				}
+				if v < s+1 {
+					bad = fmt.Sprintf("with snapshotIndex=%d the scan starts at %d: entries at or below the snapshot index may have been compacted away or – after a user Restore – never existed; GetLog fails and NewRaft panics", s, v)
+					low = true
 					return
 				}
 				if v > s+1 {
@@ -329,9 +335,11 @@ func c10R3(c *Ctx, rule string) {
 		}
 	}
 	rec(0, map[ssa.Value]int64{})
-	ok := bad == "" || escape
-	found := fmt.Sprintf("lower bound %s ≤ snapshotIndex+1 on all %d points", c.P.D(init), n)
-	if bad != "" && escape {
+	ok := bad == "" || (escape && !low)
+	found := fmt.Sprintf("lower bound %s = snapshotIndex+1 on all %d points", c.P.D(init), n)
+	if low {
+		found = bad
+	} else if bad != "" && escape {
 		found = "lower bound may exceed snapshotIndex+1, but restoreFromCommittedLogs feeds the entries it consumes to processConfigurationLogEntry"
 	} else if bad != "" {
 		found = bad + " (and nothing reachable from restoreFromCommittedLogs calls processConfigurationLogEntry)"
